@@ -306,4 +306,62 @@ theorem gen_contentGet (decompress : Nat → Bytes → Option Bytes) (f : Bytes)
           cases hd : decompress r2.1.comp (slice f r2.2 r2.1.rawSize) <;> simp [hd]
   | _ => rfl
 
+/-! ### `RawLayout::parse` -/
+
+theorem Outcome.same_cases {α : Type} (a b : Outcome α) (h : a.Same b) :
+    (∃ v, a = .ok v ∧ b = .ok v) ∨ (∃ k, a = .err k ∧ b = .err k) ∨ (∃ s t, a = .panic s ∧ b = .panic t) ∨
+      (a = .hang ∧ b = .hang) ∨ (a = .fault ∧ b = .fault) := by
+  cases a <;> cases b <;> simp_all [Outcome.Same, Outcome.erase]
+
+theorem rawLayout_loop (k : Nat) : ∀ (bs : Bytes) (acc : List RawProp),
+    ((Generated.rawLayoutParse_loop bs (acc.reverse.map RawProp.toSrcRaw) k).map' (·.1)).Same
+      ((rawLayoutDecode.go k bs acc).map' (List.map RawProp.toSrcRaw)) := by
+  induction k with
+  | zero => intro bs acc; simp [Generated.rawLayoutParse_loop, rawLayoutDecode.go]
+  | succ k ih =>
+    intro bs acc
+    unfold Generated.rawLayoutParse_loop rawLayoutDecode.go
+    simp only [bind]
+    rcases Outcome.same_cases _ _ (gen_rawPropertyParse bs) with ⟨v, h1, h2⟩ | ⟨e, h1, h2⟩ | ⟨s, t, h1, h2⟩ | ⟨h1, h2⟩ | ⟨h1, h2⟩
+    · cases hd : RawProp.decode bs with
+      | ok x =>
+        rw [hd] at h2
+        simp only [Outcome.map'_ok, Outcome.ok.injEq] at h2
+        subst h2
+        rw [h1]
+        simp only [Outcome.bind_ok]
+        have := ih x.2 (x.1 :: acc)
+        simpa using this
+      | _ => rw [hd] at h2; simp [Outcome.map'] at h2
+    · cases hd : RawProp.decode bs with
+      | err k2 =>
+        rw [hd] at h2
+        simp only [Outcome.map'_err, Outcome.err.injEq] at h2
+        subst h2
+        rw [h1]; rfl
+      | _ => rw [hd] at h2; simp [Outcome.map'] at h2
+    · cases hd : RawProp.decode bs with
+      | panic s2 => rw [h1]; rfl
+      | _ => rw [hd] at h2; simp [Outcome.map'] at h2
+    · cases hd : RawProp.decode bs with
+      | hang => rw [h1]; rfl
+      | _ => rw [hd] at h2; simp [Outcome.map'] at h2
+    · cases hd : RawProp.decode bs with
+      | fault => rw [h1]; rfl
+      | _ => rw [hd] at h2; simp [Outcome.map'] at h2
+
+/-- **`RawLayout::parse` translated on every run (count byte, then that many properties, each by the translated
+    `RawProperty::parse`) is `rawLayoutDecode` of the reader model** on every byte string — including
+    termination of the loop, which recurses on the count. -/
+theorem gen_rawLayoutParse (bs : Bytes) :
+    ((Generated.rawLayoutParse bs).map' (·.1)).Same ((rawLayoutDecode bs).map' (List.map RawProp.toSrcRaw)) := by
+  cases bs with
+  | nil => rfl
+  | cons n rest =>
+    unfold Generated.rawLayoutParse rawLayoutDecode
+    simp only [takeLE_one, Outcome.bind_ok]
+    have := rawLayout_loop n.toNat rest []
+    simp only [List.reverse_nil, List.map_nil] at this
+    cases h : Generated.rawLayoutParse_loop rest [] n.toNat <;> simp_all <;> exact this
+
 end Jubako
